@@ -26,7 +26,8 @@ SPEC = {
         "C11_omap_order", "C11_omap_order_step", "C11_omap_refines", "C11_prior_presence",
         "C11_diffs_exact", "C11_diffs_exact_apply", "C11_diffs_exact_compute", "C11_diffs_nodup", "C11_old_replace_witness",
         "C11_algebra", "C11_arith_threshold", "C11_arith_threshold_add_sub", "C11_codec_roundtrip", "C11_codec_concrete",
-        "C11_weak_iteration_partial",
+        "C11_codec_canonical", "C11_codec_concrete_canonical", "C11_codec_rejects_duplicate_witness",
+        "C11_weak_iteration", "C11_weak_iteration_forward",
         "C11_deadlock_free", "C11_deadlock_free_methods", "C11_old_deleteall_deadlock_witness",
         "C11_apply_atomic", "C11_single_linearizable", "C11_lincheck_sound",
         "C11_skeleton_set_Add", "C11_skeleton_set_AddAll", "C11_skeleton_set_Delete", "C11_skeleton_set_DeleteAll",
@@ -51,7 +52,6 @@ SPEC = {
         "NOT modelled: nil receivers; arguments aliased with the receiver (s.AddAll(s), s.Replace(s)); String(); ShrinkingMap shrinking; "
         "uint32 truncation of Size() beyond 2^32 entries is modelled but not exercised; the unlocked read of currentEntry.value in ForEach "
         "(a data race with a concurrent Set of the same key on maps with non-empty values) is outside the property",
-        "weak iteration is proved for ForEach; ForEachReverse only through the correspondence run and its oracle",
     ],
     "manifest": {
         "text": "Lean 4 theorems over every operation history: the ordered map's iteration order is the first-insertion order of the live keys "
@@ -59,8 +59,9 @@ SPEC = {
                 "Set/Add/Delete report prior presence (C11_prior_presence), AddAll/DeleteAll/Replace/Apply/Compute return exactly the membership "
                 "changes incl. the fold law for overlapping mutations (C11_diffs_exact, C11_diffs_exact_apply), the set algebra matches its "
                 "mathematical definition (C11_algebra), SetArithmetic emits exactly the changes of the threshold set for any collector sequence "
-                "(C11_arith_threshold), Encode/Decode round-trips contents and order for any prefix-free element codec (C11_codec_roundtrip), a "
-                "ForEach interleaved with arbitrary writers visits every key live throughout exactly once in order (C11_weak_iteration_partial). "
+                "(C11_arith_threshold), Encode/Decode round-trips contents and order for any prefix-free element codec (C11_codec_roundtrip) and "
+                "Decode accepts only canonical bytes (C11_codec_canonical), a ForEach / ForEachReverse interleaved with arbitrary writers visits "
+                "every key live throughout exactly once in (reverse) insertion order (C11_weak_iteration). "
                 "Protocol level, for any number of goroutines and any schedule: no deadlock for well-formed lock scripts and all Set methods are "
                 "well-formed (C11_deadlock_free, C11_deadlock_free_methods; the pre-fix DeleteAll deadlock is C11_old_deleteall_deadlock_witness), "
                 "Apply/Compute/Replace exclude all other mutators (C11_apply_atomic), Add/Delete/Has/Clear are linearizable "
@@ -69,8 +70,8 @@ SPEC = {
                 "'argument ForEach parked while a writer is pending' schedules, multi-goroutine stress histories decided by the Lean "
                 "linearizability checker and an independent Go oracle, regenerated lock skeletons (C11_skeleton_*).",
         "note": "Trusted: Lean kernel; the three hand-written models (tie = differential execution + lock skeletons + recorded histories); "
-                "RWMutex semantics as modelled; ForEachReverse weak iteration and self-aliased arguments only tested, not proved. Two defects of the "
-                "unchanged tree were fixed (DeleteAll re-entrant RLock deadlock, Replace returning all previous elements).",
+                "RWMutex semantics as modelled; self-aliased arguments only tested, not proved. Three defects of the unchanged tree were fixed "
+                "(DeleteAll re-entrant RLock deadlock, Replace returning all previous elements, Decode merging duplicate keys).",
         "technique": "Lean 4 refinement + invariant proofs over all histories / all schedules, differential correspondence, "
                      "linearizability checking of recorded histories",
     },
